@@ -174,7 +174,14 @@ func TestCheck(t *testing.T) {
 		t.Fatalf("init logger: %v", err)
 	}
 
-	r.Cases(n, 0, func(c *kit.Case) { runCase(c) })
+	nSub := r.N(400, 6000)
+	r.Cases(n+nSub, 0, func(c *kit.Case) {
+		if c.Idx >= n {
+			runSubFailCase(c)
+			return
+		}
+		runCase(c)
+	})
 }
 
 func runCase(c *kit.Case) {
